@@ -38,6 +38,7 @@ impl<A, D: Dimension> ArrayN<A, D> {
             forall|i: int| 0 <= i < self@.len() ==> (#[trigger] self@[i]).fin() && self@[i].val() >= 0real,
         ensures
             self@.len() == 0 ==> r matches Err(MinMaxError::EmptyInput), // [C10,C17]
+            self@.len() > 0 ==> r is Ok, // [C17] Ok otherwise
             // - sum x ln x over all elements, a zero element contributing exactly zero (an ordinary number, not NaN)
             self@.len() > 0 ==> (r matches Ok(v) && v.fin() && v.val() == -tsum1(vals(self@), |x: real| h_term(x), self@.len() as int)), // [C10,C20]
 //@closure 0
@@ -65,6 +66,7 @@ impl<A, D: Dimension> ArrayN<A, D> {
         ensures
             self@.len() == 0 ==> r matches Err(MultiInputError::EmptyInput), // [C10,C17]
             self@.len() > 0 && self.shape_spec() != q.shape_spec() ==> (r matches Err(MultiInputError::ShapeMismatch(sm)) && sm.first_shape@ == self.shape_spec() && sm.second_shape@ == q.shape_spec()), // [C10,C17]
+            self@.len() > 0 && self.shape_spec() == q.shape_spec() ==> r is Ok, // [C17] Ok otherwise
             // - sum p ln(q / p), elements of p and q paired by logical index, a zero p contributing exactly zero
             self@.len() > 0 && self.shape_spec() == q.shape_spec() ==> (r matches Ok(v) && v.fin() && v.val() == -tsum2(vals(self@), vals(q@), |a: real, b: real| kl_term(a, b), self@.len() as int)), // [C10,C20]
 //@at entry
@@ -120,6 +122,7 @@ impl<A, D: Dimension> ArrayN<A, D> {
         ensures
             self@.len() == 0 ==> r matches Err(MultiInputError::EmptyInput), // [C10,C17]
             self@.len() > 0 && self.shape_spec() != q.shape_spec() ==> (r matches Err(MultiInputError::ShapeMismatch(sm)) && sm.first_shape@ == self.shape_spec() && sm.second_shape@ == q.shape_spec()), // [C10,C17]
+            self@.len() > 0 && self.shape_spec() == q.shape_spec() ==> r is Ok, // [C17] Ok otherwise
             // - sum p ln q, elements paired by logical index, a zero p contributing exactly zero
             self@.len() > 0 && self.shape_spec() == q.shape_spec() ==> (r matches Ok(v) && v.fin() && v.val() == -tsum2(vals(self@), vals(q@), |a: real, b: real| ce_term(a, b), self@.len() as int)), // [C10,C20]
 //@at entry
